@@ -148,7 +148,7 @@ def distribution(results):
             d["max_wall_ms"] = max(d["max_wall_ms"], x.get("wall_ms", 0))
     return d
 
-PINNED = ["C22_node_iff_running", "C22_overdue_signalled", "C22_syscall_never_suspended", "C22_results_unchanged",
+PINNED = ["C22_holds", "C22_node_iff_running", "C22_overdue_signalled", "C22_syscall_never_suspended", "C22_results_unchanged",
           "C22_refuted_concurrent_submit", "C22_refuted_scan_during_update", "C22_holds_outside"]
 RULE = ("harness built with the crate's `preemptive` feature; trace cases run one real Scheduler on the harness "
         "thread with the real monitor thread and real SIGURG: kinds busy (a body that computes until a sibling has "
@@ -175,7 +175,8 @@ LEVEL_TEXT = ("Unbounded theorems (every schedule of thread steps, clock ticks, 
               "thread has a node exactly while its coroutine is Running; an overdue Running coroutine is signalled by "
               "the next scan, suspended and queued behind its ready siblings; no coroutine is ever suspended in a "
               "system-call state; results do not depend on the signals. For the code as it is (unsynchronised set) "
-              "the refutation witness (a lost insert with two threads) and what holds outside it are proved. The model "
+              "the refutation witnesses (a lost insert with two threads, a scan racing with an operation in flight) and "
+              "what holds outside them are proved; the trace oracle holds on every model run (C22_holds). The model "
               "is tied to the repository by replaying, inside Coq, every trace observed on a real Scheduler with the "
               "real monitor thread and real SIGURG (state changes with the H6 node flag, the bodies' own marks) "
               "against the model in lockstep; the oracle is evaluated on the observed trace.")
@@ -183,8 +184,10 @@ LEVEL_NOTE = ("Partial by nature: real signal delivery, the handler's context sw
               "any Gallina model; traces are observed on ONE scheduler thread, and the demand that a preemption "
               "happens is made robust by bodies that compute until their sibling has run (cap 3 s) instead of a fixed "
               "100 ms. Finding #25 (monitor_set_unsynchronised) is KNOWN and reproduces: with >= 2 scheduler threads "
-              "the process dies with SIGSEGV or hangs (stress cases); the model shows only its lost-update "
-              "consequence. Not proved: that the model's own traces satisfy the trace oracle as one theorem (the "
-              "clauses are proved as state / log invariants instead). No axioms (closed under the global context).")
+              "the process dies with SIGSEGV or hangs (stress cases; once even with one scheduler thread against "
+              "the monitor thread); the model shows only its lost-update / racing-scan consequence. The positive "
+              "theorems are about synchronised set operations (what the code would do with a synchronised set); "
+              "C22_holds_outside covers the unsynchronised model away from the defect. No axioms (closed under the "
+              "global context).")
 TECHNIQUE = ("machine-checked proof (Coq, state invariant over an interleaving model with atomic and two-step set "
              "operations) + lockstep replay of real traces with real signals inside Coq + multi-thread stress")
